@@ -1,6 +1,7 @@
 package main
 
 import (
+	"os"
 	"sync"
 	"time"
 )
@@ -36,7 +37,14 @@ func newGateCtl() *gateCtl {
 	return &gateCtl{arrived: make(chan struct{}, 1024)}
 }
 
+// noGate (VERIF_NOGATE=1): gates are no-ops and take no lock, so that the harness adds no
+// synchronisation between the engine's goroutines (race-detector runs)
+var noGate = os.Getenv("VERIF_NOGATE") == "1"
+
 func (g *gateCtl) gate(name string, phase int64) {
+	if noGate {
+		return
+	}
 	g.mu.Lock()
 	if g.passthrough {
 		g.mu.Unlock()
